@@ -15,7 +15,7 @@ from drivers.common import run_async, text_atoms
 
 _UNI = re.compile(r"^U[0-9A-F]{4,5}$")
 
-ALL_FEAT = ["block", "target", "section", "annot", "comment", "trail", "zonechild", "dupkey", "cind"]
+ALL_FEAT = ["block", "target", "section", "annot", "comment", "trail", "zonechild", "dupkey", "cind", "c3"]
 
 
 MARKERS = {"@MW", "@TQ"}
@@ -353,8 +353,11 @@ def surfaced(text, receipts):
         w_mw = sum(1 for k in want if k[0] == "mw")
         pos_ok = sorted((c.get("line"), c.get("column")) for c in cs if c.get("code") == "W002") == \
             sorted((k[1], k[2]) for k in want if k[0] in ("norm", "tq"))
-        ok = n_norm == w_norm and n_mw == w_mw and pos_ok
-        why = "-" if ok else ("mw-missing" if (n_norm == w_norm and pos_ok and n_mw == 0 and w_mw > 0) else "other")
+        # receipts of rewrites the generator never asks for (brace repair, markdown unwrap, salvage, raw wrap): nothing it writes
+        # outside literal zones / comments owes one (advisories such as W_DUPLICATE_KEY are not receipts)
+        n_extra = sum(1 for c in cs if c.get("code") in ("W_REPAIR_CANDIDATE", "W_MARKDOWN_UNWRAP", "W_SALVAGE_LINE", "W_SALVAGE_LOCALIZED", "W_STRUCT_RAW_WRAP"))
+        ok = n_norm == w_norm and n_mw == w_mw and pos_ok and n_extra == 0
+        why = "-" if ok else ("mw-missing" if (n_norm == w_norm and pos_ok and n_mw == 0 and w_mw > 0 and n_extra == 0) else "other")
         out.append({"route": mode, "ok": ok, "why": why})
     return out
 
@@ -381,7 +384,7 @@ def gen_runs(ctx, prop):
         runs.append((tag, base))
 
     if not ctx.thorough:
-        R("one_full_dev2", MaxItems=1, MaxDev=2, PoolA=full, Feat={"trail", "section", "annot", "block", "target", "comment", "hoist"}, Knobs=K)
+        R("one_full_dev2", MaxItems=1, MaxDev=2, PoolA=full, Feat={"trail", "section", "annot", "block", "target", "comment", "hoist", "c3"}, Knobs=K)
         R("one_headers", MaxItems=2, MaxDev=1, PoolA=micro, PoolB={"w"}, HeaderMode="all", HeaderMaxBody=2, Feat={"comment", "block", "hoist"},
           Knobs={"alt", "ind", "final", "endOmit", "envOmit", "blank"})
         R("two_core_dev1", MaxItems=2, MaxDepth=1, MaxDev=1, PoolA=core, PoolB=micro, Feat=feat_all, Knobs=K)
@@ -394,7 +397,7 @@ def gen_runs(ctx, prop):
           Feat={"block", "section"})
     else:
         # sized to about 1M documents in total (measured state counts in comments); the whole list is held in memory and replayed
-        R("one_full_dev3", MaxItems=1, MaxDev=3, PoolA=full, Feat={"trail", "section", "annot", "block", "target", "comment", "hoist"}, Knobs=K)
+        R("one_full_dev3", MaxItems=1, MaxDev=3, PoolA=full, Feat={"trail", "section", "annot", "block", "target", "comment", "hoist", "c3"}, Knobs=K)
         R("two_headers", MaxItems=2, MaxDepth=1, MaxDev=1, PoolA=mini, PoolB=micro, HeaderMode="all", HeaderMaxBody=2,
           Feat={"comment", "block", "section", "hoist"}, Knobs=K)
         R("two_full_dev1", MaxItems=2, MaxDepth=1, MaxDev=1, PoolA=full, PoolB=core, Feat=feat_all, Knobs=K)
